@@ -271,6 +271,9 @@ let closed_comp w = (* is component w a necessarily closed polyhedron? *)
   | _ -> false
 let is_poly w = match !pair, w with
   | "CG", 1 | "GC", 2 | "NG", 1 | "CN", _ | "NN", _ | "BC", 2 | "SC", 2 | "CS", 1 | "NB", 1 -> true | _ -> false
+let dom_name w =
+  let c = (try String.get !pair (w - 1) with _ -> '?') in
+  (match c with 'C' -> "C_Polyhedron" | 'N' -> "NNC_Polyhedron" | 'G' -> "Grid" | 'B' -> "Rational_Box" | 'S' -> "BD_Shape" | 'O' -> "Octagonal_Shape" | _ -> "?")
 let relax_con k = if k.ckd = GT then { k with ckd = GE } else k
 
 let nth_q p i = List.nth p i
@@ -585,10 +588,21 @@ let () =
                     if not (dj || inc || sa) then bump "answer-indefinite"
                   | "relation_with_cg" ->
                     let g = read_cg c dim in
-                    expect r "rel"; let dj = nexti r = 1 in let inc = nexti r = 1 in let _ = nexti r in
+                    expect r "rel"; let dj = nexti r = 1 in let inc = nexti r = 1 in let _ = nexti r in let _ = nexti r in
+                    (* the components' own answers (when the harness printed them) *)
+                    let c1dj, c1inc, c2dj, c2inc = (match r.t with
+                      | "comp" :: a :: b :: c' :: d' :: _ -> a = "1", b = "1", c' = "1", d' = "1"
+                      | _ -> false, false, false, false) in
+                    (* a wrong definite answer that a Box / BD_Shape / Octagonal_Shape component gives on its own (its
+                       relation_with(Congruence) works on interval bounds and mishandles non-unit coefficients / rational bounds) *)
+                    let weak w = (match dom_name w with "Rational_Box" | "BD_Shape" | "Octagonal_Shape" -> true | _ -> false) in
+                    (* when the product's definite answer is refuted by a witness point of the intersection, that point lies in
+                       every component: a component that gave the same definite answer on its own is refuted by the same point *)
+                    let tag_for cdj1 cdj2 = (if weak 1 && cdj1 then "[component-relation-cg " ^ dom_name 1 ^ "] "
+                                             else if weak 2 && cdj2 then "[component-relation-cg " ^ dom_name 2 ^ "] " else "") in
                     witness := "";
-                    if dj then judge k ("answered is_disjoint " ^ !witness) (empty_meet dim (restrict mx [] [g]));
-                    if inc then judge k ("answered is_included " ^ !witness) (incl_meet dim mx (restrict universe [] [g]));
+                    if dj then judge k (tag_for c1dj c2dj ^ "answered is_disjoint " ^ !witness) (empty_meet dim (restrict mx [] [g]));
+                    if inc then judge k (tag_for c1inc c2inc ^ "answered is_included " ^ !witness) (incl_meet dim mx (restrict universe [] [g]));
                     if not (dj || inc) then bump "answer-indefinite"
                   | "relation_with_gen" ->
                     (* subsumes: adding the generator does not change the product.  A point must belong to the intersection
